@@ -2,9 +2,9 @@
     This file contains only the pinned statements; the stateful model is Reentrancy/ReentrancyModel.v,
     the proofs are in Reentrancy/ReentrancyProofs.v. *)
 From ClapModel Require Import Base.Bytes Base.Machine.
-From ClapModel Require Import Parse.Cmd Parse.Build Parse.Errors Parse.Parser.
+From ClapModel Require Import Parse.Cmd Parse.Build Parse.Errors Parse.Validator Parse.Parser.
 From ClapModel Require Import Reentrancy.ReentrancyModel Reentrancy.ReentrancyProofs Reentrancy.ReentrancyParse.
-From ClapModel Require Import Reentrancy.ReentrancyDym Reentrancy.ReentrancyGlobals Reentrancy.ReentrancyMsg Reentrancy.ReentrancyBuild.
+From ClapModel Require Import Reentrancy.ReentrancyDym Reentrancy.ReentrancyGlobals Reentrancy.ReentrancyMsg Reentrancy.ReentrancyBuild Reentrancy.ReentrancyMarks Reentrancy.ReentrancyMarksMsg.
 From ClapModel Require Import Parse.Valid Parse.Matcher ParseProofs.Dispatch.
 From Coq Require Import List.
 From RecordUpdate Require Import RecordSet.
@@ -97,12 +97,41 @@ Theorem C11_built_beforehand_kind_refuted :
 Proof. exact built_beforehand_kind_refuted. Qed.
 Print Assumptions C11_built_beforehand_kind_refuted.
 
-(** parser level (these four rest on functional_extensionality_dep, see Reentrancy/ReentrancyParse.v):
-    the token loop of a level reads the level's subcommands only through their signatures *)
+(** parser level: the token loop of a level reads the level's subcommands only through their signatures.
+    This statement of the third pass is an equality of FUNCTIONS and is the only theorem of the property that
+    still rests on functional_extensionality_dep; the pointwise statement (no axiom, also for arbitrary
+    BinNameBuilt marks) is [C11_parser_reads_signatures_pointwise] below, and every other theorem uses that. *)
 Theorem C11_parser_reads_signatures : forall c l',
   map sig (c_subs c) = map sig l' -> parse_loop (c <| c_subs := l' |>) = parse_loop c.
-Proof. exact sh_parse_loop. Qed.
+Proof. exact sh_parse_loop_fun. Qed.
 Print Assumptions C11_parser_reads_signatures.
+
+(** fourth pass (2): the same POINTWISE, closed under the global context, and for a command whose
+    BinNameBuilt marks (in both setting words) are set to arbitrary values: the token loop reads neither the
+    subcommands beyond their signatures nor the mark *)
+Theorem C11_parser_reads_signatures_pointwise : forall c l' v v',
+  map sig (c_subs c) = map sig l' ->
+  forall toks ls st, parse_loop (rsm c l' v v') toks ls st = parse_loop c toks ls st.
+Proof. exact shm_parse_loop. Qed.
+Print Assumptions C11_parser_reads_signatures_pointwise.
+
+(** the validator reads of a command: its arguments, its groups and four settings -- for ANY two commands *)
+Theorem C11_validator_congruence : forall c c',
+  c_args c' = c_args c -> c_groups c' = c_groups c ->
+  is_set s_arg_required_else_help c' = is_set s_arg_required_else_help c ->
+  is_set s_sub_required c' = is_set s_sub_required c ->
+  is_set s_subs_negate_reqs c' = is_set s_subs_negate_reqs c ->
+  is_set s_allow_missing_pos c' = is_set s_allow_missing_pos c ->
+  forall m, validate c' m = validate c m.
+Proof. exact v_validate. Qed.
+Print Assumptions C11_validator_congruence.
+
+(** everything [get_matches_with] does at a level after the token loop and the subcommand (pending occurrence,
+    environment, defaults, validator) ignores the subcommand list and the marks *)
+Theorem C11_level_post_reads_own_definition : forall c l v v' parsed,
+  Dispatch.post (rsm c l v v') parsed = Dispatch.post c parsed.
+Proof. exact post_rsm. Qed.
+Print Assumptions C11_level_post_reads_own_definition.
 
 (** two commands with the same normal form to every depth: same parser result, same visited names *)
 Theorem C11_parse_normal_form : forall fuel c1 c2 toks st,
@@ -258,7 +287,7 @@ Theorem C11_bin_name_is_usage_name : forall p s,
 Proof. exact prepared_bin_is_usage_name_plain. Qed.
 Print Assumptions C11_bin_name_is_usage_name.
 
-(** ---- third pass (4), PARTIAL: histories containing [build()].  The recorded finding
+(** ---- third pass (4), partial; COMPLETED by the fourth pass below: histories containing [build()].  The recorded finding
     C11-help-tree-after-build is delimited as a boolean family of DEFINITIONS: it needs a node with an
     auto-generated help subcommand, i.e. a definition outside [nohelp_tree] (help subcommand disabled at
     the node and all its subcommands to the given depth).  Full statement (not proved):
@@ -286,3 +315,143 @@ Theorem C11_build_subtree_preserves_normal_form_partial : forall n f e p sc,
   norm_sub n p (build_recursive_x f e sc) = norm_sub n p sc.
 Proof. exact norm_sub_build_recursive. Qed.
 Print Assumptions C11_build_subtree_preserves_normal_form_partial.
+
+(** ---- fourth pass (1): histories containing [build()], completed.  [clr] erases the BinNameBuilt marks in
+    every node; [quiet_tree n b c] = no node of the lazily built tree (root and [n] levels below it, program
+    name [b]) has the help subcommand enabled after [_build_self]; [help_family] is its complement: the family
+    of the recorded finding C11-help-tree-after-build. ---- *)
+
+(** the parser never reads the mark and reads subcommands only through [_build_subcommand]: two commands with
+    the same normal form to every depth MODULO THE MARKS give the same parser result and visited names *)
+Theorem C11_parse_normal_form_modulo_marks : forall fuel c1 c2 toks st,
+  (forall n, clr (norm_children n c1) = clr (norm_children n c2)) ->
+  get_matches_with fuel c1 toks st = get_matches_with fuel c2 toks st.
+Proof. exact gmw_agreem. Qed.
+Print Assumptions C11_parse_normal_form_modulo_marks.
+
+Theorem C11_parse_names_normal_form_modulo_marks : forall fuel c1 c2 toks st,
+  (forall n, clr (norm_children n c1) = clr (norm_children n c2)) ->
+  map visit_names (parse_trace fuel c1 toks st) = map visit_names (parse_trace fuel c2 toks st).
+Proof. exact trace_agreem. Qed.
+Print Assumptions C11_parse_names_normal_form_modulo_marks.
+
+(** [_build_bin_names_internal], any fuel, on a tree that is built as deep as it walks (what [build()] hands it):
+    absorbed by the normal form modulo the marks -- the names it gives are overwritten ([bin_name]) or equal to
+    the ones [_build_subcommand] computes later (display-name consistency) *)
+Theorem C11_build_bin_names_normal_form : forall f n b y,
+  built_to f y -> clr (norm n b (build_bin_names f y)) = clr (norm n b y).
+Proof. exact norm_bbn. Qed.
+Print Assumptions C11_build_bin_names_normal_form.
+
+Theorem C11_build_bin_names_subtree_normal_form : forall f n p y,
+  built_to f y -> c_display_name y <> None ->
+  clr (norm_sub n p (build_bin_names f y)) = clr (norm_sub n p y).
+Proof. exact norm_sub_bbn. Qed.
+Print Assumptions C11_build_bin_names_subtree_normal_form.
+
+(** at a node whose help subcommand is disabled once it is built, [expand_help_tree] is irrelevant *)
+Theorem C11_expand_irrelevant_quiet_node : forall c,
+  is_set s_disable_help_sub (build_self c) = true -> build_self_x true c = build_self c.
+Proof. exact expand_irrelevant_q. Qed.
+Print Assumptions C11_expand_irrelevant_quiet_node.
+
+(** outside the family the tree-building half of [build()] preserves the normal form (no marks involved) *)
+Theorem C11_build_tree_preserves_normal_form : forall n b f e c,
+  (e = true -> quiet_tree f b c = true) -> norm n b (build_recursive_x f e c) = norm n b c.
+Proof. exact build_tree_normal_form_q. Qed.
+Print Assumptions C11_build_tree_preserves_normal_form.
+
+(** [build()] with any fuel *)
+Theorem C11_build_preserves_normal_form : forall n b f s,
+  quiet_tree f b s = true -> clr (norm n b (build_op_with f s)) = clr (norm n b s).
+Proof. exact build_op_normal_form. Qed.
+Print Assumptions C11_build_preserves_normal_form.
+
+(** the family is a function of the normal form modulo the marks, hence an invariant of every history *)
+Theorem C11_family_invariant : forall b s c k,
+  (forall n, clr (norm n b s) = clr (norm n b c)) -> quiet_tree k b s = quiet_tree k b c.
+Proof. exact same_nf_quiet. Qed.
+Print Assumptions C11_family_invariant.
+
+(** every finite history of parses (failing, mutating), renders, clones and [build()] calls under one program
+    name leaves the normal form of the fresh definition, modulo the marks *)
+Theorem C11_history_normal_form_build : forall h b c n,
+  good_name b = true -> (forall k, quiet_tree k b c = true) -> xhist_okb b c h = true ->
+  clr (norm n b (xrun c h)) = clr (norm n b c).
+Proof. intros h b c n Hg Hq Hh. exact (xhistory_normal_form_build h b c c Hg Hq (fun _ => eq_refl) Hh n). Qed.
+Print Assumptions C11_history_normal_form_build.
+
+(** HISTORY INDEPENDENCE WITH [build()]: outside the family of the finding, after any such history the parser
+    result (matcher or error with the parser state), the bin / display names of every visited level and the
+    reported error of the next parse are those of the fresh definition *)
+Theorem C11_history_independence_build : forall h b c argv,
+  good_name b = true -> (forall k, quiet_tree k b c = true) -> xhist_okb b c h = true ->
+  argv_under b (xrun c h) argv = true -> argv_under b c argv = true ->
+  parse_result (xrun c h) argv = parse_result c argv
+  /\ parse_names (xrun c h) argv = parse_names c argv
+  /\ err_of (fst (fst (parse_mut (xrun c h) argv))) = err_of (fst (fst (parse_mut c argv))).
+Proof. exact history_independence_build. Qed.
+Print Assumptions C11_history_independence_build.
+
+(** a sufficient condition on the definition alone, one boolean: help subcommand disabled (a global setting)
+    at every node *)
+Theorem C11_nohelp_definitions_outside_family : forall b c,
+  nohelp_all c = true -> forall k, quiet_tree k b c = true.
+Proof. exact nohelp_all_quiet. Qed.
+Print Assumptions C11_nohelp_definitions_outside_family.
+
+(** the witness of the recorded finding lies in the family (already at depth 0: the root gets an
+    auto-generated help subcommand), and the statement is refuted there *)
+Theorem C11_finding_witness_in_family :
+  exists b c argv, help_family 0 b c = true /\ parse_kind (build_op c) argv <> parse_kind c argv.
+Proof. exact finding_witness_in_family. Qed.
+Print Assumptions C11_finding_witness_in_family.
+
+(** ---- fourth pass (3): the [mid] part of usage_name modelled: [mid_string sty mem p] =
+    [Usage::get_required_usage_from(&[], None, true)] of the parent [p] (requirement graph, unrolling, required
+    groups with their members, required options, required positionals by index), each piece followed by a space,
+    unless SubcommandsNegateReqs / ArgsNegateSubcommands; [sty] / [mem] = the per-argument texts
+    ([Arg::stylized(Some(true))], member text of [format_group]). ---- *)
+
+(** it is rendered from the parent's own arguments, groups and two settings: not from its subcommands, names, marks *)
+Theorem C11_mid_reads_own_definition : forall sty mem p p',
+  c_args p' = c_args p -> c_groups p' = c_groups p ->
+  is_set s_subs_negate_reqs p' = is_set s_subs_negate_reqs p ->
+  is_set s_args_negate_subs p' = is_set s_args_negate_subs p ->
+  mid_string sty mem p' = mid_string sty mem p.
+Proof. exact own_mid_string. Qed.
+Print Assumptions C11_mid_reads_own_definition.
+
+(** version line and the REAL usage head (parent's bin name, its required arguments, the subcommand's names) of
+    every visited level, and the error: equal on reused (any history with failing / mutating parses), cloned, fresh *)
+Theorem C11_history_messages_usage_name : forall sty mem h b c argv,
+  good_name b = true -> xhist_ok b c h = true ->
+  argv_under b (xrun c h) argv = true -> argv_under b c argv = true ->
+  parse_lines (mid_string sty mem) (xrun c h) argv = parse_lines (mid_string sty mem) c argv
+  /\ err_of (fst (fst (parse_mut (xrun c h) argv))) = err_of (fst (fst (parse_mut c argv))).
+Proof. exact history_messages_real. Qed.
+Print Assumptions C11_history_messages_usage_name.
+
+(** and that head is [bin_name(parent) ++ mid_string(parent) ++ sc_names(level)] *)
+Theorem C11_usage_name_is_real : forall sty mem p k,
+  usage_name_at (mid_string sty mem) p k = real_usage_name sty mem p k.
+Proof. exact usage_name_at_real. Qed.
+Print Assumptions C11_usage_name_is_real.
+
+(** ---- fourth pass (1)+(3): the message lines for histories that contain [build()], outside the family ---- *)
+
+(** the own definition of every visited level, modulo the marks *)
+Theorem C11_visited_levels_normal_form_modulo_marks : forall fuel c1 c2 toks st,
+  (forall n, clr (norm_children n c1) = clr (norm_children n c2)) ->
+  map visit_ownm (parse_trace fuel c1 toks st) = map visit_ownm (parse_trace fuel c2 toks st).
+Proof. exact trace_own_agreem. Qed.
+Print Assumptions C11_visited_levels_normal_form_modulo_marks.
+
+(** version line, real usage head and error after any history with [build()] calls = fresh *)
+Theorem C11_history_messages_build : forall sty mem h b c argv,
+  good_name b = true -> (forall k, quiet_tree k b c = true) -> xhist_okb b c h = true ->
+  argv_under b (xrun c h) argv = true -> argv_under b c argv = true ->
+  parse_lines (mid_string sty mem) (xrun c h) argv = parse_lines (mid_string sty mem) c argv
+  /\ err_of (fst (fst (parse_mut (xrun c h) argv))) = err_of (fst (fst (parse_mut c argv))).
+Proof. exact history_messages_build. Qed.
+Print Assumptions C11_history_messages_build.
